@@ -212,16 +212,22 @@ impl FileSystem for MemoryFS {
     fn create_file(&self, path: &str) -> VfsResult<Box<dyn SeekAndWrite + Send>> {
         self.ensure_has_parent(path)?;
         let content = Arc::new(Vec::<u8>::new());
-        self.handle.write().unwrap().files.insert(
-            path.to_string(),
-            MemoryFile {
-                file_type: VfsFileType::File,
-                content,
-                created: SystemTime::now(),
-                modified: Some(SystemTime::now()),
-                accessed: Some(SystemTime::now()),
-            },
-        );
+        {
+            let mut handle = self.handle.write().unwrap();
+            if let Some(file) = handle.files.get(path) {
+                ensure_file(file)?;
+            }
+            handle.files.insert(
+                path.to_string(),
+                MemoryFile {
+                    file_type: VfsFileType::File,
+                    content,
+                    created: SystemTime::now(),
+                    modified: Some(SystemTime::now()),
+                    accessed: Some(SystemTime::now()),
+                },
+            );
+        }
         let writer = WritableFile {
             content: Cursor::new(vec![]),
             destination: path.to_string(),
